@@ -15,9 +15,9 @@ import kdf, dumpgen
 P = "Kdf.Props.C14."
 THEOREMS = [P + t for t in (
     "page_set_coherent", "page_history", "page_set_ok_iff",
-    "reg_read_eq_blob", "reg_write_patches_blob", "reg_read_after_write", "reg_history",
+    "reg_read_eq_blob", "reg_write_patches_blob", "reg_read_after_write", "reg_history", "reg_cleared",
     "version_code_coherent", "version_history", "version_cleared",
-    "vmci_lines_split", "vmci_lines_view", "vmci_raw_unchanged", "vmci_dir_refused")]
+    "vmci_lines_split", "vmci_lines_view", "vmci_raw_unchanged", "vmci_dir_refused", "vmci_dot_refused")]
 M64 = (1 << 64) - 1
 
 # ----------------------------------------------------------------------------- ABI
@@ -184,7 +184,10 @@ CONFLICT = [("X.Y", "X.Y.W"), ("A", "A.B"), ("SYMBOL(a.b)", "SYMBOL(a)"), ("NUMB
             ("A.", "A")]
 
 
-def rand_text(rng, conflict=False):
+DOTKEYS = [".A", ".", "..B", ".SYMBOL(s1)", ".X.Y", ".PAGESIZE"]
+
+
+def rand_text(rng, conflict=False, dot=False):
     k = rng.random()
     if k < 0.04:
         return b"", []
@@ -211,6 +214,10 @@ def rand_text(rng, conflict=False):
     if conflict:
         rng.shuffle(rows)
         rows += [keys[-1] + "=1", keys[-2] + "=2"]
+    if dot:
+        dk = rng.choice(DOTKEYS)
+        rows.insert(rng.randint(0, len(rows)), dk + rng.choice(["=1", "=", "", "=4096"]))
+        keys.append(dk)
     text = "\n".join(rows)
     if rng.random() < 0.7:
         text += "\n"
@@ -224,8 +231,10 @@ def vm_queries(text, keys, rng):
     qs = set(keys)
     qs |= {"A", "X", "OFFSET(list_head", "nokey", "SYMBOL(a"}
     for q in sorted(qs):
-        if q and not q.startswith("."):
+        if q:
             lines.append("vline " + hx(q))
+    if any(q.startswith(".") for q in qs):
+        lines += ["vline " + hx(".A"), "vsym " + hx(".s1")]
     syms = set()
     for q in keys:
         m = re.match(r"^[A-Z]+\((.*)\)$", q)
@@ -238,12 +247,12 @@ def vm_queries(text, keys, rng):
     return lines
 
 
-def gen_vmci(rng, n, conflict_rate=0.0):
+def gen_vmci(rng, n, conflict_rate=0.0, dot_rate=0.0):
     lines = ["new", "setstr addrxlat.ostype " + hx("linux")]
     for _ in range(n):
         k = rng.random()
         if k < 0.85:
-            text, keys = rand_text(rng, conflict=rng.random() < conflict_rate)
+            text, keys = rand_text(rng, conflict=rng.random() < conflict_rate, dot=rng.random() < dot_rate)
             lines.append("setblob linux.vmcoreinfo.raw " + hx(text))
         else:
             text, keys = None, rng.sample(KEYPOOL, 3)
@@ -303,6 +312,14 @@ def gen_regs(R, rng, idx, nops):
             o = max(0, off - rng.choice([0, 0, 1, 3]))
             bs = bytes(rng.randrange(256) for _ in range(rng.choice([1, ln, ln, ln + 2])))
             lines += ["poke cpu.0.PRSTATUS %d %s" % (o, hx(bs)), "get cpu.0." + n]
+        elif k < 0.88:
+            n = pick()
+            lines += ["clear cpu.0.PRSTATUS", "get cpu.0.PRSTATUS", "get cpu.0." + n]
+            if rng.random() < 0.6:
+                lines += ["setnum cpu.0.%s %d" % (n, rng.getrandbits(8 * tab[n][1])), "get cpu.0." + n]
+            if rng.random() < 0.3:
+                lines.append("poke cpu.0.PRSTATUS %d %s" % (tab[n][0], hx(b"\x55")))
+            lines += ["setblob cpu.0.PRSTATUS " + hx(bytes(rng.randrange(256) for _ in range(size))), "get cpu.0." + n]
         else:
             c = rng.random()
             if c < 0.5:
@@ -317,6 +334,8 @@ def gen_regs(R, rng, idx, nops):
             if rng.random() < 0.5:
                 lines += ["setnum cpu.0.%s %d" % (n, rng.getrandbits(8 * tab[n][1])), "get cpu.0.PRSTATUS", "get cpu.0." + n]
     # final sweep: every register against the blob
+    if rng.random() < 0.1:
+        lines.append("clear cpu.0.PRSTATUS")
     lines.append("get cpu.0.PRSTATUS")
     lines += ["get cpu.0." + n for n in names]
     return Case("R", lines, dict(arch=arch, be=be, table=tab, size=size, blob0=blob0))
@@ -334,9 +353,6 @@ def probes():
                  b"SYMBOL(a)=10\nSYMBOL(a.b)=20\n"):
         keys = sorted({l.split(b"=")[0].decode() for l in text.split(b"\n") if l})
         c = Case("V", ["new", ost, "setblob linux.vmcoreinfo.raw " + hx(text)] + vm_queries(text, keys, None), dict(probe=True))
-        for k in keys:
-            if k.startswith("."):
-                c.lines.append("vline " + hx(k))
         out.append(c)
     return out
 
@@ -545,9 +561,8 @@ def check_vmci(case, obs):
             badpg = any(int(v) == 0 or int(v) & (int(v) - 1) for v in pgs) or any(k == "PAGESIZE" and v == "" for k, v in rows)
             if setst != "ok" and not (conflict or badpg or ldot):
                 raise FailAt(i, "setting linux.vmcoreinfo.raw failed with status %s for a well-formed text" % setst)
-            if setst == "ok" and conflict and not ldot:
-                # accepted although two keys cannot both live in the tree: views must still agree (checked below)
-                pass
+            if setst == "ok" and ldot:
+                raise FailAt(i, "a text with a key that starts with a dot was accepted (%r): such a row cannot be stored" % text)
             for k, v in rows:
                 if k == "OSRELEASE":
                     release = v
@@ -567,19 +582,21 @@ def check_vmci(case, obs):
             got = {}
             for k, kind, v in (ents or []):
                 if k in got:
-                    raise KnownOrFail(i, "line key %r listed twice" % k, ldot and "vmci-leading-dot")
+                    raise FailAt(i, "line key %r listed twice" % k)
                 got[k] = v
             if setst == "ok":
                 if got != lines_exp:
                     miss = sorted(set(lines_exp.items()) ^ set(got.items()))[:4]
-                    raise KnownOrFail(i, "parsed lines differ from the raw text %r: %r" % (text, miss),
-                                      (ldot and "vmci-leading-dot") or None)
+                    raise FailAt(i, "parsed lines differ from the raw text %r: %r" % (text, miss))
             else:
                 # a refused text: what was parsed must be a prefix of the key/value list
                 ok = any(dict(rows[:n]) == got for n in range(len(rows) + 1))
                 if not ok:
-                    raise KnownOrFail(i, "after a refused text %r the parsed lines %r are no prefix of its rows" % (text, got),
-                                      (ldot and "vmci-leading-dot") or None)
+                    raise FailAt(i, "after a refused text %r the parsed lines %r are no prefix of its rows" % (text, got))
+                if ldot and not conflict:
+                    known = (i, "VMCOREINFO %r has a key that starts with a dot: the text is refused (%s) and linux.vmcoreinfo.lines "
+                                "holds only %d of %d rows while raw holds the whole text" % (text, setst, len(got), len(lines_exp)),
+                             "vmci-leading-dot")
                 if conflict:
                     known = (i, "VMCOREINFO %r has a key that is a dotted prefix of another key: the text is refused (%s) and "
                                 "linux.vmcoreinfo.lines holds only %d of %d rows while raw holds the whole text" % (text, setst, len(got), len(lines_exp)),
@@ -626,8 +643,9 @@ def check_vmci(case, obs):
             else:
                 exp = lines_exp.get(key)
             if setst == "ok" and got != exp:
-                raise KnownOrFail(i, "kdump_vmcoreinfo_line(%r) returns %r, the text %r says %r" % (key, got, text, exp),
-                                  ((ldot or key.startswith(".")) and "vmci-leading-dot") or None)
+                raise FailAt(i, "kdump_vmcoreinfo_line(%r) returns %r, the text %r says %r" % (key, got, text, exp))
+            if key.startswith(".") and got is not None:
+                raise FailAt(i, "kdump_vmcoreinfo_line(%r) returns %r: no line with a leading dot can be stored (text %r)" % (key, got, text))
             if setst != "ok" and got is not None and got not in [v for k, v in rows if k == key]:
                 raise FailAt(i, "kdump_vmcoreinfo_line(%r) returns %r which is no row of %r" % (key, got, text))
         elif w[0] == "vsym":
@@ -671,12 +689,20 @@ def check_regs(case, obs):
             if o != "set ok":
                 raise FailAt(i, "replacing PRSTATUS failed: " + o)
             blob = bytearray(unhx(w[2]))
+        elif l == "clear cpu.0.PRSTATUS":
+            if o != "clear ok":
+                raise FailAt(i, "clearing PRSTATUS failed: " + o)
+            blob = None
         elif w[0] == "poke":
             off, bs = int(w[2]), unhx(w[3])
-            if off + len(bs) <= len(blob):
+            if blob is not None and off + len(bs) <= len(blob):
                 blob[off:off + len(bs)] = bs
         elif l == "get cpu.0.PRSTATUS":
             st, v = parse_get(o)
+            if blob is None:
+                if st == "ok":
+                    raise FailAt(i, "cpu.0.PRSTATUS still has a value after it was cleared")
+                continue
             if st != "ok" or v != bytes(blob):
                 d = [j for j in range(min(len(v or b""), len(blob))) if v[j] != blob[j]][:8] if st == "ok" else []
                 raise FailAt(i, "cpu.0.PRSTATUS differs from the bytes written (status %s, first differing offsets %s)" % (st, d))
@@ -685,6 +711,10 @@ def check_regs(case, obs):
             off, ln = tab[n]
             v = int(w[2])
             st = o.split()[1]
+            if blob is None:
+                if st == "ok":
+                    raise FailAt(i, "writing cpu.0.%s succeeded although PRSTATUS has no value" % n)
+                continue
             if off + ln <= len(blob):
                 if st != "ok":
                     raise FailAt(i, "writing cpu.0.%s failed with %s" % (n, st))
@@ -697,6 +727,10 @@ def check_regs(case, obs):
                 raise FailAt(i, "register %s is not in the ABI table" % n)
             off, ln = tab[n]
             st, v = parse_get(o)
+            if blob is None:
+                if st == "ok":
+                    raise FailAt(i, "cpu.0.%s reads %#x although PRSTATUS has no value" % (n, v))
+                continue
             if off + ln <= len(blob):
                 exp = int.from_bytes(blob[off:off + ln], "big" if be else "little")
                 if st != "ok" or v != exp:
@@ -719,7 +753,8 @@ def gen_cases(R):
     for i in range(100 if quick else 12000):
         cases.append(gen_version(rng, rng.randint(3, 12)))
     for i in range(250 if quick else 30000):
-        cases.append(gen_vmci(rng, rng.randint(1, 4), conflict_rate=0.08 if i % 4 == 0 else 0.0))
+        cases.append(gen_vmci(rng, rng.randint(1, 4), conflict_rate=0.08 if i % 4 == 0 else 0.0,
+                              dot_rate=0.15 if i % 4 == 1 else 0.0))
     for i in range(32 if quick else 1600):
         cases.append(gen_regs(R, rng, i, rng.randint(8, 30) if quick else rng.randint(10, 60)))
     return cases
@@ -837,7 +872,7 @@ def run(R):
                traces_validated_against_impl=len(impl), correspondence_first_diff=first_mismatch, case_kinds=kinds,
                registers_checked_against_abi=nregs, c16_monitor_lines=c16[:5],
                samples=[dict(kind=cases[i].kind, lines=cases[i].lines[:6]) for i in (len(cases) // 3, len(cases) - 1)])
-    return "proof", cov, ["VMCOREINFO texts contain no NUL byte and no key starting with '.' (the latter is listed as a finding)",
+    return "proof", cov, ["VMCOREINFO texts contain no NUL byte",
                           "no allocation failure; fresh contexts have no file (page-size post hook does not reallocate caches)",
                           "release components and VMCOREINFO numbers stay below 2^40 in the generated cases (KERNEL_VERSION on long)",
                           "glibc strtoul/ffsl semantics as transcribed in Kdf.Model.Derived"]
